@@ -38,6 +38,7 @@ inductive Pat where
   | str                   -- \"[^\"]+\"
   | nl1                   -- \n
   | expect                -- "EXPECT:"[^\t \n]*
+  | expect2               -- "EXPECT:"([^\t \n*]|"*"+[^\t \n*/])*   (the value stops before a closing `*/`)
   | eof                   -- <<EOF>>
   deriving Repr, DecidableEq, Inhabited
 
@@ -158,6 +159,24 @@ def nl1Len : List Char → Nat
 def expectLen (t : List Char) : Nat :=
   if isPrefix "EXPECT:".toList t then 7 + spanLen (fun c => !(c == '\t' || c == ' ' || c == '\n')) (t.drop 7) else 0
 
+/-- after a `*` inside an EXPECT value: the run of stars is followed by a character that is neither blank, newline nor `/` -/
+def starOk : List Char → Bool
+  | [] => false
+  | d :: r => if d == '*' then starOk r else !(d == '\t' || d == ' ' || d == '\n' || d == '/')
+
+/-- longest match of `([^\t \n*]|"*"+[^\t \n*/])*`: both alternatives are deterministic in their first character, and a run of
+    stars can only be consumed as a whole together with the character after it, so the match is decided character by character -/
+def expect2Tail : List Char → Nat
+  | [] => 0
+  | c :: r =>
+    if c == '\t' || c == ' ' || c == '\n' then 0
+    else if c == '*' then (if starOk r then expect2Tail r + 1 else 0)
+    else expect2Tail r + 1
+
+/-- `"EXPECT:"([^\t \n*]|"*"+[^\t \n*/])*` -/
+def expect2Len (t : List Char) : Nat :=
+  if isPrefix "EXPECT:".toList t then 7 + expect2Tail (t.drop 7) else 0
+
 /-- longest match of a pattern at the start of `t` (0 = no match; `eof` never matches text) -/
 def matchLen : Pat → List Char → Nat
   | .lit s, t => if isPrefix s t then s.length else 0
@@ -173,6 +192,7 @@ def matchLen : Pat → List Char → Nat
   | .str, t => strLen t
   | .nl1, t => nl1Len t
   | .expect, t => expectLen t
+  | .expect2, t => expect2Len t
   | .eof, _ => 0
 
 /-- flex: the longest match among the rules of the start condition; the first rule wins ties -/
